@@ -293,3 +293,82 @@ func c01R10(ic *IC, r *Report) {
 	r.Check(len(bad) == 0, "R01.10", "_range/blank-value-not-stored", ic.pos(fi.Decl.Pos()), fmt.Sprintf("%d stores of the range value, all guarded by the blank test", nStores),
 		"the range generator stores the element through the value child's frame index at "+strings.Join(bad, ", ")+" without testing that the value is not the blank identifier: for `for i, _ := range x` cfg allots no slot, the index is 0 and the element overwrites the function's first result or argument (or panics when the types differ)")
 }
+
+// R01.11: the go1.22 loop-variable idiom. cfg turns `i := i` inside the body of a for/range
+// loop whose variable is i into a no-op (the variable is already per-iteration). The shortcut
+// is only valid for that exact statement: `i := i * 2` declares a new variable with another
+// value, so the condition of the shortcut must test the source operand (its identifier or
+// kind), not only the name of the destination.
+func c01R11(ic *IC, r *Report) {
+	fi := ic.fn(r, "Interpreter.cfg")
+	if fi == nil {
+		return
+	}
+	info := ic.Info
+	genFld := ic.field("node", "gen")
+	isConstNamed := func(e ast.Expr, names ...string) bool {
+		id, ok := unparen(e).(*ast.Ident)
+		if !ok {
+			return false
+		}
+		c, ok := info.Uses[id].(*types.Const)
+		if !ok {
+			return false
+		}
+		for _, n := range names {
+			if c.Name() == n {
+				return true
+			}
+		}
+		return false
+	}
+	n := 0
+	ast.Inspect(fi.Decl.Body, func(nd ast.Node) bool {
+		as, ok := nd.(*ast.AssignStmt)
+		if !ok || len(as.Lhs) != 1 || len(as.Rhs) != 1 || selField(info, as.Lhs[0]) != genFld {
+			return true
+		}
+		if id, ok := unparen(as.Rhs[0]).(*ast.Ident); !ok || id.Name != "nop" {
+			return true
+		}
+		// under a condition on the grand-parent being a for/range statement?
+		loopGuard := false
+		var inner *ast.IfStmt
+		for _, p := range enclosingPath(fi.Decl.Body, as) {
+			ifs, ok := p.(*ast.IfStmt)
+			if !ok {
+				continue
+			}
+			inner = ifs
+			ast.Inspect(ifs.Cond, func(m ast.Node) bool {
+				if e, ok := m.(ast.Expr); ok && isConstNamed(e, "forStmt7", "rangeStmt") {
+					loopGuard = true
+				}
+				return true
+			})
+		}
+		if !loopGuard || inner == nil {
+			return true
+		}
+		n++
+		// the source operand: the local defined from n.child[...] that is not the destination;
+		// accept any mention of an identifier named like the source of the enclosing pair loop
+		testsSource := false
+		ast.Inspect(inner.Cond, func(m ast.Node) bool {
+			se, ok := m.(*ast.SelectorExpr)
+			if !ok {
+				return true
+			}
+			if id, ok := unparen(se.X).(*ast.Ident); ok && id.Name == "src" && (se.Sel.Name == "ident" || se.Sel.Name == "kind" || se.Sel.Name == "sym") {
+				testsSource = true
+			}
+			return true
+		})
+		r.Check(testsSource, "R01.11", fmt.Sprintf("cfg/loop-variable-idiom#%d/source-is-the-variable", n), ic.pos(inner.Pos()), "the shortcut for `i := i` tests the source operand",
+			"the shortcut that turns a redeclaration of the loop variable into a no-op ("+types.ExprString(inner.Cond)+") does not test the source operand: `i := i * 2` in the body of `for i := ...` is dropped (and its operand's closure generation dereferences a nil type), where compiled Go declares a new i")
+		return true
+	})
+	if n == 0 {
+		r.Errorf("R01.11: the loop-variable shortcut (n.gen = nop under a forStmt7/rangeStmt test) was not found in cfg")
+	}
+}
